@@ -46,12 +46,12 @@ class GenoStats(Harness):
     name = "genotype-statistics"
 
     def modules(self):
-        return [GM, PGM]
+        return [GM, PGM, "pybrops.breed.prot.gt.DenseUnphasedGenotyping"]
 
     def inputs(self, mk):
         n, m, kind = self.params["n"], self.params["m"], self.params["kind"]
         if kind == "phased":
-            A = mk.int("a", (2, n, m), lo=0, hi=1, vd="int8")
+            A = mk.int("a", (self.params.get("nphase", 2), n, m), lo=0, hi=1, vd="int8")
         else:
             A = mk.int("a", (n, m), lo=0, hi=2, vd="int8")
         return dict(A=A)
@@ -66,9 +66,14 @@ class GenoStats(Harness):
         for f in _FORMATS:
             out["fmt" + f] = g.mat_asformat(f)
         if kind == "phased":
-            # unphased projection of the same calls
-            proj = A.sum(0, dtype="int8") if not isinstance(A, symnp.SymArray) else symnp.f_sum(A, axis=0, dtype="int8")
-            g2 = _mk_gmat("unphased", proj)
+            # unphased projection of the same calls: by hand for diploids, through the real genotyping protocol otherwise (ploidy = number of phases)
+            if self.params.get("nphase", 2) == 2:
+                proj = A.sum(0, dtype="int8") if not isinstance(A, symnp.SymArray) else symnp.f_sum(A, axis=0, dtype="int8")
+                g2 = _mk_gmat("unphased", proj)
+            else:
+                from pybrops.breed.prot.gt.DenseUnphasedGenotyping import DenseUnphasedGenotyping
+                g2 = DenseUnphasedGenotyping().genotype(g)
+                out["proj_ploidy"] = g2.ploidy
             for s in _STATS:
                 out["proj_" + s] = getattr(g2, s)()
             for f in _FORMATS:
@@ -78,10 +83,12 @@ class GenoStats(Harness):
 
     def check(self, P, inp, out):
         n, m, kind = self.params["n"], self.params["m"], self.params["kind"]
-        ploidy = 2
+        ploidy = self.params.get("nphase", 2) if kind == "phased" else 2
         A = inp["A"]
+        if "proj_ploidy" in out:
+            P.prove(int(out["proj_ploidy"]) == ploidy, "unphased-projection-has-ploidy=number-of-phases", detail="%s" % out["proj_ploidy"])
         if kind == "phased":
-            dos = [[cell(A, 0, i, j) + cell(A, 1, i, j) for j in range(m)] for i in range(n)]
+            dos = [[sum([cell(A, h, i, j) for h in range(1, ploidy)], cell(A, 0, i, j)) for j in range(m)] for i in range(n)]
         else:
             dos = [[cell(A, i, j) for j in range(m)] for i in range(n)]
         for pre in ([""] + (["proj_"] if kind == "phased" else [])):
@@ -92,6 +99,11 @@ class GenoStats(Harness):
                     P.prove(P.eq(cell(tac, i, j), dos[i][j]), pre + "tacount=dosage")
                     P.prove(P.eq(cell(taf, i, j) * ploidy, dos[i][j]), pre + "tafreq=dosage/ploidy")
             acnt, afr = out[pre + "acount"], out[pre + "afreq"]
+            # the population-wide count is a sum over taxa: its (default) integer type must not wrap for any population the bounds cannot reach
+            # (an int8 accumulator wraps at 64 diploids, int16 at 16384); decided on the result dtype the engine tracks
+            P.prove(acnt.dtype.kind in "iu" and acnt.dtype.itemsize >= 4, pre + "acount-accumulator-is-at-least-32-bit", detail="acount dtype %s" % acnt.dtype)
+            for nm_ in ("gtcount",):
+                P.prove(out[pre + nm_].dtype.kind in "iu" and out[pre + nm_].dtype.itemsize >= 4, pre + nm_ + "-accumulator-is-at-least-32-bit", detail="%s" % out[pre + nm_].dtype)
             meh_ref = 0.0
             P.prove(tuple(afr.shape) == (m,), pre + "afreq-shape")
             gtc, gtf = out[pre + "gtcount"], out[pre + "gtfreq"]
@@ -123,7 +135,7 @@ class GenoStats(Harness):
                     P.prove(P.eq(s, n), pre + "gtcount-sums-to-ntaxa")
             P.prove(P.eq(out[pre + "meh"] * m, ploidy * meh_ref), pre + "meh=ploidy*mean(p(1-p))")
             f0, f1, f2 = out[pre + "fmt{0,1,2}"], out[pre + "fmt{-1,0,1}"], out[pre + "fmt{-1,m,1}"]
-            for j in range(m):
+            for j in (range(m) if ploidy == 2 else ()):      # the coded formats are defined for diploids
                 colsum = 0.0
                 for i in range(n):
                     colsum = colsum + (dos[i][j] - 1)
@@ -141,12 +153,12 @@ class StatsAfterInplace(Harness):
     name = "statistics-after-in-place-edit"
 
     def modules(self):
-        return [GM, PGM]
+        return [GM, PGM, "pybrops.breed.prot.gt.DenseUnphasedGenotyping"]
 
     def inputs(self, mk):
         n, m, kind = self.params["n"], self.params["m"], self.params["kind"]
         if kind == "phased":
-            A = mk.int("a", (2, n, m), lo=0, hi=1, vd="int8")
+            A = mk.int("a", (self.params.get("nphase", 2), n, m), lo=0, hi=1, vd="int8")
         else:
             A = mk.int("a", (n, m), lo=0, hi=2, vd="int8")
         return dict(A=A)
@@ -407,6 +419,11 @@ def obligations(tier):
             h = GenoStats(kind=kind, n=n, m=m)
             h.weight = (3 if kind == "phased" else 1) ** n * 3 ** m
             obs.append(h)
+    # haploid / tetraploid phased matrices and their projection through the genotyping protocol
+    for nph, n, m in ([(1, 2, 1), (4, 1, 1)] if tier == "quick" else [(1, 2, 1), (1, 3, 2), (4, 1, 1), (3, 2, 1), (4, 2, 1)]):
+        h = GenoStats(kind="phased", n=n, m=m, nphase=nph)
+        h.weight = 2 ** (nph * n * m)
+        obs.append(h)
     for kind in ("phased", "unphased"):
         for op in ("remove", "append", "incorp"):
             if tier == "quick" and op == "incorp":
